@@ -469,3 +469,67 @@ def rewrite_format(src, ed, lo, hi, log):
             arg = src.text[sig[a0].start:sig[a1 - 1].end]
         ed.replace(sig[i].start, sig[c].end, f'vx_fmt1({openq}{pre}{closeq}, &({arg}), {openq}{post}{closeq})', 'R11')
         log.append(f'R11 {src.rel}:{src.line_of(sig[i].start)} format! with one placeholder routed through vx_fmt1')
+
+
+def rewrite_method_shims(src, ed, lo, hi, shims, log):
+    """R13: `RECV.m(ARGS)` -> `shim(RECV, ARGS)` for the listed provided trait methods (name -> (shim, recv_prefix))."""
+    sig = src.sig
+    for i in range(lo + 1, hi - 1):
+        t = sig[i]
+        if t.kind == 'id' and t.text in shims and sig[i - 1].text == '.' and sig[i + 1].text == '(':
+            shim, prefix = shims[t.text]
+            a = postfix_chain_start(sig, i - 2, lo)
+            recv_a, recv_b = sig[a].start, sig[i - 2].end
+            o = i + 1
+            empty = sig[o].mate == o + 1
+            ed.insert(recv_a, f'{shim}({prefix}', 'R13')
+            ed.replace(recv_b, sig[o].end, '' if empty else ', ', 'R13')
+            log.append(f'R13 {src.rel}:{src.line_of(t.start)} provided trait method `.{t.text}(..)` routed through {shim}')
+
+
+def find_closures(src, lo, hi):
+    """Closures in source order: (bar1_idx, bar2_idx, body_first_idx, body_last_idx)."""
+    sig = src.sig
+    out = []
+    i = lo
+    while i < hi:
+        t = sig[i]
+        if t.kind == 'p' and t.text == '|' and sig[i - 1].kind == 'p' and sig[i - 1].text in '(,=' or \
+           (t.kind == 'p' and t.text == '|' and sig[i - 1].kind == 'id' and sig[i - 1].text == 'move'):
+            j = i + 1
+            while not (sig[j].kind == 'p' and sig[j].text == '|'):
+                if sig[j].kind == 'p' and sig[j].text in '([':
+                    j = sig[j].mate
+                j += 1
+            b = j + 1
+            k = b
+            if sig[k].kind == 'p' and sig[k].text == '{':
+                e = sig[k].mate
+            else:
+                while k < hi:
+                    u = sig[k]
+                    if u.kind == 'p' and u.text in '([{':
+                        k = u.mate + 1
+                        continue
+                    if u.kind == 'p' and u.text in ',)};':
+                        break
+                    k += 1
+                e = k - 1
+            out.append((i, j, b, e))
+            i = j + 1
+            continue
+        i += 1
+    return out
+
+
+def annotate_closures(src, ed, lo, hi, specs, log):
+    """R12: closure k gets typed parameters, a named result and an `ensures` (ghost contract on the real closure body)."""
+    cl = find_closures(src, lo, hi)
+    sig = src.sig
+    for k, sp in specs.items():
+        if k >= len(cl):
+            raise LiftError(f'{src.rel}: contract names closure {k} but the lifted range has {len(cl)}')
+        b1, b2, first, last = cl[k]
+        ed.replace(sig[b1].start, sig[b2].end, f"|{sp['params']}| -> ({sp['ret']})\n        ensures {sp['ensures'].strip()}\n    {{ ", 'R12')
+        ed.insert(sig[last].end, ' }', 'R12')
+        log.append(f'R12 {src.rel}:{src.line_of(sig[b1].start)} closure {k} annotated with a contract')
